@@ -995,6 +995,7 @@ static int print_stmt (hawk_t* hawk, hawk_nde_t* p, int depth)
 		{
 			hawk_nde_if_t* px = (hawk_nde_if_t*)p;
 
+		print_if_arm:
 			PRINT_TABS (hawk, depth);
 			hawk_getkwname (hawk, HAWK_KWID_IF, &kw);
 			PUT_SRCSTRN (hawk, kw.ptr, kw.len);
@@ -1015,6 +1016,16 @@ static int print_stmt (hawk_t* hawk, hawk_nde_t* p, int depth)
 				hawk_getkwname (hawk, HAWK_KWID_ELSE, &kw);
 				PUT_SRCSTRN (hawk, kw.ptr, kw.len);
 				PUT_NL (hawk);
+				if (px->else_part->type == HAWK_NDE_IF)
+				{
+					/* an else-if ladder can be of any length. print the next arm
+					 * here the way PRINT_STMTS (hawk, px->else_part, depth + 1)
+					 * would, without a recursive call for each arm */
+					HAWK_ASSERT (px->else_part->next == HAWK_NULL);
+					px = (hawk_nde_if_t*)px->else_part;
+					depth++;
+					goto print_if_arm;
+				}
 				if (px->else_part->type == HAWK_NDE_BLK)
 					PRINT_STMTS (hawk, px->else_part, depth);
 				else
@@ -1337,7 +1348,15 @@ void hawk_clrpt (hawk_t* hawk, hawk_nde_t* tree)
 				hawk_nde_if_t* px = (hawk_nde_if_t*)p;
 				hawk_clrpt (hawk, px->test);
 				hawk_clrpt (hawk, px->then_part);
-				if (px->else_part) hawk_clrpt (hawk, px->else_part);
+				if (px->else_part)
+				{
+					/* an else-if ladder can be of any length. don't recurse
+					 * into the else part. it is a single statement. chain it
+					 * to the nodes to visit next instead. */
+					HAWK_ASSERT (px->else_part->next == HAWK_NULL);
+					px->else_part->next = next;
+					next = px->else_part;
+				}
 				hawk_freemem (hawk, p);
 				break;
 			}
